@@ -12,7 +12,7 @@
    NewTaskInfo(last delivered pod version). *)
 From stdpp Require Import gmap.
 From Coq Require Import ZArith.
-From V Require Import Base.Res Sched.LedgerModel Sched.LedgerInv C08.Model C08.Laws C08.Lemmas C08.Refuted.
+From V Require Import Base.Res Sched.LedgerModel Sched.LedgerInv C08.Model C08.Laws C08.Lemmas C08.Lemmas2 C08.Refuted.
 Open Scope Z_scope.
 
 (* --- the two task-level operations every pod handler is made of --- *)
@@ -144,6 +144,73 @@ Theorem C08_resync_pod_gone : forall eps c j st,
 Proof. exact sync_task_gone. Qed.
 Print Assumptions C08_resync_pod_gone.
 
+(* --- the scheduling cycle's steps: every branch of AddBindTask (+ bind flow) and Evict --- *)
+Theorem C08_bind_keeps_inv : forall eps c jid tid nid ok,
+  Rep c -> cycle_post c (fst (bind_task eps c jid tid nid ok)) jid tid.
+Proof. exact bind_task_post. Qed.
+Print Assumptions C08_bind_keeps_inv.
+
+Theorem C08_evict_keeps_inv : forall eps c jid tid ok,
+  Rep c -> cycle_post c (fst (evict_task eps c jid tid ok)) jid tid.
+Proof. exact evict_task_rep. Qed.
+Print Assumptions C08_evict_keeps_inv.
+
+(* --- the repair-queue drains as whole folds --- *)
+Theorem C08_drain_cleanup_keeps_inv : forall eps c,
+  Inv2 eps c -> Inv2 eps (drain_cleanup c) /\ Ext c (drain_cleanup c) /\ c_heap (drain_cleanup c) = c_heap c.
+Proof. exact drain_cleanup_inv2. Qed.
+Print Assumptions C08_drain_cleanup_keeps_inv.
+
+Theorem C08_drain_resync_repairs : forall eps c,
+  Inv2 eps c ->
+  Inv2 eps (drain_resync eps c) /\ Ext c (drain_resync eps c) /\ c_errq (drain_resync eps c) = [] /\
+  (Queued eps c -> SyncedSub eps (drain_resync eps c)).
+Proof. exact drain_resync_inv2. Qed.
+Print Assumptions C08_drain_resync_repairs.
+
+(* --- single_event_refines and history_preserves_inv over the WHOLE alphabet --- *)
+Theorem C08_step_preserves_inv : forall eps c e,
+  Inv2 eps c -> step_ok2 e -> Post2 eps c (handle eps c e) e.
+Proof. exact step_inv2. Qed.
+Print Assumptions C08_step_preserves_inv.
+
+Theorem C08_history_preserves_inv : forall eps h c, Inv2 eps c -> hist_ok2 h -> Inv2 eps (run eps c h).
+Proof. exact history_preserves_inv. Qed.
+Print Assumptions C08_history_preserves_inv.
+
+(* --- failed_bind_repaired / failed_evict_repaired: every pattern of failures --- *)
+Theorem C08_step_keeps_queued : forall eps c e,
+  Inv2 eps c -> Queued eps c -> step_ok3 c e -> Queued eps (handle eps c e).
+Proof. exact step_pending. Qed.
+Print Assumptions C08_step_keeps_queued.
+
+Theorem C08_failures_repaired : forall eps h,
+  hist_ok3 eps empty_cache h ->
+  let c := run eps empty_cache (h ++ [EDrainResync]) in
+  Inv2 eps c /\ SyncedSub eps c /\ c_errq c = [].
+Proof. exact failures_repaired. Qed.
+Print Assumptions C08_failures_repaired.
+
+(* --- Snapshot(): a function of the cache state; which entries it clones, which it skips --- *)
+Theorem C08_snapshot_selection : forall eps c,
+  let s := take_snapshot eps c in
+  (forall n, s_nodes s !! n =
+     match c_nodes c !! n with
+     | Some N => if n_has_node N then Some (clone_node eps (clone_alloc c n N) N) else None
+     | None => None end) /\
+  (forall j, s_jobs s !! j =
+     match c_jobs c !! j with
+     | Some cj => if in_snapshot c cj then Some (upd_job cj (clone_job (c_heap c) (cj_job cj))) else None
+     | None => None end) /\
+  s_queues s = c_queues c /\ s_nodelist s = c_nodelist c.
+Proof. exact snapshot_selection. Qed.
+Print Assumptions C08_snapshot_selection.
+
+Theorem C08_clone_job_keeps_ledger : forall c j cj,
+  Rep c -> c_jobs c !! j = Some cj -> JobRep (c_heap c) j (clone_job (c_heap c) (cj_job cj)).
+Proof. exact clone_job_rep. Qed.
+Print Assumptions C08_clone_job_keeps_ledger.
+
 (* --- the view is a function of the held tasks and the node objects --- *)
 Theorem C08_view_determined : forall c c',
   Rep c -> Rep c' -> c_heap c = c_heap c' ->
@@ -208,3 +275,16 @@ Example C08_f4_same_final :
   o_nodes (final_objects f4_history) = o_nodes (final_objects (build_events (final_objects f4_history))).
 Proof. exact f4_same_final. Qed.
 Print Assumptions C08_f4_same_final.
+
+(* the hypotheses of C08_failures_repaired are met by a history with a failed bind, which
+   really leaves the task Binding and queued until the drain *)
+Example C08_fail_history_ok : hist_ok3 eps0 empty_cache fail_history.
+Proof. exact fail_history_ok. Qed.
+Print Assumptions C08_fail_history_ok.
+
+Example C08_fail_history_effect :
+  (t_status <$> c_heap (run eps0 empty_cache fail_history) !! 1%positive) = Some Binding /\
+  c_errq (run eps0 empty_cache fail_history) = [(2%positive, 1%positive)] /\
+  (t_status <$> c_heap (run eps0 empty_cache (fail_history ++ [EDrainResync])) !! 1%positive) = Some Pending.
+Proof. exact fail_history_effect. Qed.
+Print Assumptions C08_fail_history_effect.
